@@ -29,6 +29,9 @@ type Pipe struct {
 	// FlipAt >= 0 (set FlipOn) inverts the byte at that absolute offset of the delivered stream.
 	FlipAt   int64
 	FlipMask byte // 0 = invert the whole byte
+	// FlipLowZero: instead of inverting, clear the five low bits of that byte (a CBOR item head keeps its major type
+	// and becomes its empty / zero form: an empty map, an empty string, the integer 0)
+	FlipLowZero bool
 	// one-shot overrides used when a behaviour of the specification is replayed: the next Write is
 	// split in two fragments / the next Read takes exactly this many fragments
 	ForceSplit bool
@@ -177,7 +180,11 @@ func (p *Pipe) Read(b []byte) (int, error) {
 			if m == 0 {
 				m = 0xff
 			}
-			b[n+int(p.FlipAt-p.read)] ^= m
+			if p.FlipLowZero {
+				b[n+int(p.FlipAt-p.read)] &= 0xe0
+			} else {
+				b[n+int(p.FlipAt-p.read)] ^= m
+			}
 		}
 		n += c
 		p.read += int64(c)
